@@ -146,6 +146,13 @@ func (env *SpecEnv) lookupGo(name string) (types.Object, bool) {
 	}
 	_, obj := sc.LookupParent(name, env.pos)
 	if obj == nil {
+		// short variable declarations: an identifier's scope starts at the END of the statement that declares
+		// it, which go/types records; retry without the position restriction
+		if _, o2 := sc.LookupParent(name, token.NoPos); o2 != nil {
+			if v, ok := o2.(*types.Var); ok && v.Pos() < env.pos {
+				return o2, true
+			}
+		}
 		return nil, false
 	}
 	return obj, true
@@ -329,6 +336,13 @@ func (env *SpecEnv) trBin(e *SExpr) Val {
 	switch op {
 	case "&&", "||", "==>", "<==>":
 		a := env.tr(e.Args[0])
+		// short circuit on literal truth values: the other side may mention types that are not loaded
+		if (op == "==>" || op == "&&") && a.T == "false" && a.S == "Bool" {
+			if op == "==>" {
+				return Val{T: "true", S: "Bool"}
+			}
+			return Val{T: "false", S: "Bool"}
+		}
 		b := env.tr(e.Args[1])
 		env.want(a, "Bool", e.Args[0])
 		env.want(b, "Bool", e.Args[1])
@@ -486,7 +500,7 @@ func (env *SpecEnv) walkSel(cur cursor, t types.Type, name string, e *SExpr) (cu
 				cur = cursor{isRef: true, ref: cur.val.T, owner: p.Elem()}
 				t = p.Elem()
 			}
-		} else {
+		} else if cur.prefix == "" {
 			t = cur.owner
 		}
 		stt, ok := t.Underlying().(*types.Struct)
@@ -711,6 +725,13 @@ func (env *SpecEnv) trCall(e *SExpr) Val {
 			return c.zero(t)
 		}
 		return Val{T: c.zeroOfSort(so, nil), S: so}
+	case "allocated":
+		// allocated(r): the reference r denotes an object that exists in the state the expression is evaluated in
+		x := env.tr(args[0])
+		if x.S == "Iface" {
+			x = Val{T: "(iref " + x.T + ")", S: "Int"}
+		}
+		return Val{T: "(and (> " + x.T + " 0) (< " + x.T + " " + c.allocCur(env.st) + "))", S: "Bool"}
 	case "cell":
 		// cell(p, "Sort"): the value of sort Sort stored in the cell p points to (p a pointer or a boxed pointer)
 		x := env.tr(args[0])
@@ -771,7 +792,8 @@ func (env *SpecEnv) trCall(e *SExpr) Val {
 			ptrTo := strings.HasPrefix(name, "*")
 			t := c.eng.lookupNamed(strings.TrimPrefix(name, "*"))
 			if t == nil {
-				env.fail("typeis: unknown type %s", name)
+				// the type is not part of the loaded program: no value can have it
+				return Val{T: "false", S: "Bool"}
 			}
 			if ptrTo {
 				t = types.NewPointer(t)
@@ -794,7 +816,7 @@ func (env *SpecEnv) trCall(e *SExpr) Val {
 		}
 		uf := "unbox!" + mangle(so)
 		c.declFun(uf, []Sort{"Int"}, so)
-		return Val{T: "(" + uf + " (iref " + x.T + "))", S: so}
+		return Val{T: "(" + uf + " (iref " + x.T + "))", S: so, GT: c.eng.lookupVSort(so)}
 	case "unboxptr":
 		x := env.tr(args[0])
 		return Val{T: "(iref " + x.T + ")", S: "Int"}
